@@ -193,6 +193,14 @@ class FitHistMachine(Machine):
                     ops.append(["cancel", rng.randint(1, 40)])  # F2: the model function raises on its k-th evaluation inside do_fit
                 ops.append(["do_fit"])
                 n_fit += 1
+                if rng.random() < 0.35:
+                    # results of the fit are inspected right after a parameter was fixed / released / limited (the minimizer's derived caches are
+                    # rebuilt by the read while the fitted point must stay where it is)
+                    nm = rng.choice(names)
+                    r = rng.random()
+                    ops.append(["fix", [nm, None]] if r < 0.5 else (["release", nm] if r < 0.7 else ["limit", [nm, spec["ptrue"][names.index(nm)] - 50.0, spec["ptrue"][names.index(nm)] + 50.0]]))
+                    ops.append(["read", rng.choice(["parameter_cov_mat", "parameter_cor_mat", "result_dict", "parameter_errors"]), 0.0])
+                    ops.append(["read", "cost_function_value", 0.0])
             elif k == "set_data" and not has_model_src:
                 ops.append(["set_data", self._new_data(rng, spec)])
                 nsrc_reset = True  # sources of the old container are gone; indices restart (executor mirrors this)
@@ -516,6 +524,17 @@ class FitHistMachine(Machine):
                     sig = np.zeros(len(pcur))
                 tol = 0.05 * np.where(np.isfinite(sig) & (sig > 0), sig, 0.0) + 1e-6 * (np.abs(pcur) + 1e-3)
                 moved = bool(np.any(np.abs(np.array(pnew) - np.array(pcur)) > tol))
+            if not moved and len(pnew) == len(pcur) and pnew != pcur:
+                # a move within the minimizer tolerance is accepted only as a re-minimisation: then the minimizer holds the same point as the graph.
+                # A graph left at an excursion point of a numerical derivative while the minimizer still holds the optimum is a read that changed
+                # parameter_values (and everything evaluated from them).
+                try:
+                    mp = [float(v) for v in main.fit._fitter._minimizer.parameter_values]
+                except Exception:
+                    mp = pnew
+                if len(mp) == len(pnew) and not np.allclose(mp, pnew, rtol=1e-10, atol=1e-13):
+                    raise Violation(PROP, "read-moved", "parameter_values", "reading %s left the graph at %s while the minimizer holds %s (before the read: %s)" % (
+                        name, pnew, mp, pcur), step=step, extra={"tags": ["graph-displaced-from-minimizer"]})
             if moved:
                 raise Violation(PROP, "read-moved", "parameter_values", "reading %s changed the parameter values from %s to %s" % (name, pcur, pnew), step=step,
                                 extra={"tags": ["after-do_fit"] if main.fit.did_fit else []})
